@@ -53,7 +53,7 @@ _ALL = {
              'expire() pages soundly through any population (X3); lazy removal is expiry-guarded and budgeted (E2, E3).',
              'Clock trajectories x populations beyond the order abstraction (float rounding of now + expire) are not '
              'decided.'),
-    'C05': P(['T1', 'T2', 'T3', 'L1', 'L2', 'L9', 'L5', 'L6', 'L7', 'F1', 'V1a', 'K5', 'K7'],
+    'C05': P(['T1', 'T2', 'T3', 'L1', 'L2', 'L9', 'L5', 'L6', 'L7', 'F1', 'V1a', 'K5', 'K7', 'B7'],
              'lock-discipline analysis over enumerated paths with transaction context',
              'Decides that the transaction manager takes the write lock at BEGIN, admits only the owner thread to nest '
              'and commits xor rolls back on every path (T1-T3); every row write executes inside a transaction block '
@@ -85,7 +85,7 @@ _ALL = {
              'write leaves no partial file (F9) and count/size are maintained by triggers for every row event and '
              'assigned nowhere else (F10).',
              'Counter values under real concurrency rely on SQLite trigger atomicity (A2).'),
-    'C09': P(['E1', 'E2', 'E3', 'E4', 'E5', 'E6', 'S5'],
+    'C09': P(['E1', 'E2', 'E3', 'E4', 'E5', 'E6', 'S5', 'E7'],
              'policy table coherence + guard dominance with order abstraction {<,=,>} on volume vs size_limit',
              'Decides that each policy culls ascending by the column its get-update refreshes and its index covers, '
              'policy none has no cull statement (E1); size eviction is dominated by volume >= size_limit in writes and '
@@ -151,7 +151,7 @@ _ALL = {
              'returns the cached value or this call\'s result, stores under the same key, and stores nothing for a '
              'zero expiry (M3); Index/Fanout memoize delegate correctly (S6).',
              'Results of arbitrary user functions are not decided.'),
-    'C17': P(['H1', 'H2', 'H3', 'H4', ('S4', r'check'), ('S6', r'FanoutCache\.check')],
+    'C17': P(['H1', 'H2', 'H3', 'H4', ('S4', r'check'), ('S6', r'FanoutCache\.check'), 'H5'],
              'guard dominance over enumerated paths of check()',
              'Decides that every write/removal/VACUUM in check() is dominated by `fix` (H1); every repair is preceded '
              'by a warning issued under the same condition and no warning depends on fix (H2); directory pruning reaches '
@@ -202,7 +202,7 @@ _EXTRA = {
     'C16': ' Also: decorator factories keep no state between decorated functions (M4); the lookup result shape survives '
            'the vanished-file path that memoize_stampede unpacks (B2); the wrapper\'s __cache_key__ is assigned after '
            'the metadata copy of functools.wraps/update_wrapper (M5).',
-    'C17': ' Also: both directory scans run on every path and compare os.path.join-ed paths (H4).',
+    'C17': ' Also: every warning about a repairable inconsistency is followed by its repair under fix (H5); both directory scans run on every path and compare os.path.join-ed paths (H4).',
     'C18': ' Also: setting prefixes are stripped exactly and reset() writes through to the Settings table (B5, B6); '
            'connections are opened in autocommit mode with the object\'s timeout (L6); statements name only '
            'tables and indexes that __init__ creates unconditionally and nothing drops (P5); a FanoutCache passes its '
